@@ -5,6 +5,7 @@ S=/var/tmp/avx/repo
 rsync -a --delete --exclude target --exclude .git ${SRC:-/repo}/ $S/ --exclude src/kani_verif
 rsync -a --delete /verif/kani/ $S/src/kani_verif/
 cp /verif/contracts/post.rs $S/src/kani_verif/post.rs
+python3 -c "import sys; sys.path.insert(0,'/verif'); import checks; checks.write_instances('$S/src/kani_verif', checks.ALL)"
 cd $S
 CARGO_NET_OFFLINE=true cargo kani -Z mem-predicates -Z stubbing -Z loop-contracts --only-codegen 2>&1 | grep -E "^error" -A12 | head -40
 printf "%s\n" "$@" | xargs -P $J -I{} bash -c 'cd '$S' && CARGO_NET_OFFLINE=true timeout ${TMO:-1200} cargo kani -Z mem-predicates -Z stubbing -Z loop-contracts --harness {} 2>&1 | python3 /verif/tools/filter.py | grep -v "^Complete"'
